@@ -21,7 +21,8 @@ def cb_update(item, *sketches, table=None, plan=None, die=None, record_dir=None,
     """The user callback.  The queue items are plain record NUMBERS 0..k-1 (so the first
     one is falsy, like a shard index); table[j] = {"id": j, "keys": {key: mult}, "ret": r}.
     plan[j] in {"ok","before","after"}: raise before touching / after updating.
-    die = (worker_id, k): that worker exits (os._exit model) on the k-th item it takes."""
+    die = (worker_id, k, how): that worker (any worker if worker_id == -1) exits (os._exit
+    model) on the k-th item it takes."""
     item = table[item]
     j = item["id"]
     wid = sys._getframe(1).f_locals.get("worker_id")
@@ -30,7 +31,8 @@ def cb_update(item, *sketches, table=None, plan=None, die=None, record_dir=None,
             f.write(f"{j}\n")
     if state is not None:
         state["taken"] = state.get("taken", 0) + 1
-    if die is not None and wid == die[0] and state is not None and state["taken"] == die[1]:
+    if die is not None and (die[0] == -1 or wid == die[0]) and state is not None \
+            and state["taken"] == die[1]:
         if die[2] == "sim":
             raise SimExit(3)
         os._exit(3)
@@ -96,7 +98,7 @@ def snapshot(result, names):
 
 
 def run_sim(table, n_workers, names, assign=None, choices=(), cms_type="linear", kwargs=None,
-            horizon=30000, want_objects=False, order=None, items=None):
+            horizon=30000, want_objects=False, order=None, items=None, cpu_count=1):
     """One complete execution of the real parallel_add under the simulator.
     table: list of records (make_items); the queue items are their numbers, in `order`
     (default 0..k-1) - or `items` verbatim (used for the generator probe).
@@ -109,7 +111,7 @@ def run_sim(table, n_workers, names, assign=None, choices=(), cms_type="linear",
     kwargs = dict(kwargs or {})
     kwargs["table"] = table
     res = {"outcome": None, "error": None}
-    sim = Sim(choices=choices, assign=assign, horizon=horizon)
+    sim = Sim(choices=choices, assign=assign, horizon=horizon, cpu_count=cpu_count)
     objs = None
     with sim:
         try:
